@@ -169,10 +169,10 @@ package sam
 //@   ensures @C03 !stopped && !br.fault ==> len(Y) == nbl(IN, E, lnN(IN, E))
 //@   ensures @C03 !br.fault ==> len(Y) <= nbl(IN, E, lnN(IN, E))
 //@   splitvar k == IT
-//@   ensures @C03 forall k int :: {lnS(IN, E, k)} !br.fault && 0 <= k && k < lnN(IN, E) && !lblank(IN, E, k) && nbl(IN, E, k) < len(Y) && IN[lnS(IN, E, k)] == '@' ==>
+//@   ensures @C03 forall k int :: {lnS(IN, E, k)} (!br.fault || nbl(IN, E, k) < len(Y) - 1) && 0 <= k && k < lnN(IN, E) && !lblank(IN, E, k) && nbl(IN, E, k) < len(Y) && IN[lnS(IN, E, k)] == '@' ==>
 //@             Y[nbl(IN, E, k)].1 == nil && Y[nbl(IN, E, k)].0.S == nil && Y[nbl(IN, E, k)].0.H != nil && isLine(deref(Y[nbl(IN, E, k)].0.H), IN, E, k)
 // every other non-blank line is yielded as the result of parseLine on its TAB-separated fields (folded: samOK / samParsed, specs/25sam.spec)
-//@   ensures @C03 forall k int :: {lnS(IN, E, k)} !br.fault && 0 <= k && k < lnN(IN, E) && !lblank(IN, E, k) && nbl(IN, E, k) < len(Y) && IN[lnS(IN, E, k)] != '@' ==>
+//@   ensures @C03 forall k int :: {lnS(IN, E, k)} (!br.fault || nbl(IN, E, k) < len(Y) - 1) && 0 <= k && k < lnN(IN, E) && !lblank(IN, E, k) && nbl(IN, E, k) < len(Y) && IN[lnS(IN, E, k)] != '@' ==>
 //@             Y[nbl(IN, E, k)].0.H == nil && (Y[nbl(IN, E, k)].1 == nil <==> samOK(splitA(lnStr(IN, E, k), 9), splitN(lnStr(IN, E, k), 9))) && (Y[nbl(IN, E, k)].1 == nil ==> Y[nbl(IN, E, k)].0.S != nil && samParsed(Y[nbl(IN, E, k)].0.S.Qname, Y[nbl(IN, E, k)].0.S.Flag, Y[nbl(IN, E, k)].0.S.Rname, Y[nbl(IN, E, k)].0.S.Pos, Y[nbl(IN, E, k)].0.S.Mapq, Y[nbl(IN, E, k)].0.S.Cigar, Y[nbl(IN, E, k)].0.S.Rnext, Y[nbl(IN, E, k)].0.S.Pnext, Y[nbl(IN, E, k)].0.S.Tlen, Y[nbl(IN, E, k)].0.S.Seq, Y[nbl(IN, E, k)].0.S.Qual, maphas(Y[nbl(IN, E, k)].0.S.Tags), mapval(Y[nbl(IN, E, k)].0.S.Tags), splitA(lnStr(IN, E, k), 9), splitN(lnStr(IN, E, k), 9)))
 //@   loop 1
 //@     invariant br.pos <= br.end && !br.fired
